@@ -6,6 +6,7 @@ import (
 	"math/rand"
 
 	"polyverif/internal/c15/splatref"
+	"polyverif/internal/gen"
 	"polyverif/internal/run"
 )
 
@@ -30,8 +31,25 @@ func largeSizes(r *rand.Rand, i int) (int, int) {
 }
 
 func largeClouds(c *run.Ctx) (res run.Result) {
+	n1, n2 := largeSizes(c.Rng, c.Case)
+	return largeCloudsN(c, n1, n2)
+}
+
+// splatBlockBases: point counts that fill a 4…64 KiB staging block exactly for the element sizes of the three
+// codecs: .splat records (32), SPZ planes (9, 6, 3, 1 bytes per point; 24/45 for SH), PLY float rows (4·14, 4·17, 12, 16, 4).
+var splatBlockBases = gen.BlockBases(8000, 32, 9, 6, 3, 24, 45, 56, 68, 12, 16, 4)
+
+// blockMultipleClouds (round 7): the large-phase oracle on exactly k·base points (and a second, unrelated base).
+func blockMultipleClouds(c *run.Ctx) run.Result {
+	n1 := splatBlockBases[c.Case%len(splatBlockBases)] * (1 + c.Case/len(splatBlockBases))
+	n2 := splatBlockBases[(c.Case*7+3)%len(splatBlockBases)]
+	res := largeCloudsN(c, n1, n2)
+	res.SetAdd("block_multiple_point_counts", fmt.Sprint(n1))
+	return res
+}
+
+func largeCloudsN(c *run.Ctx, n1, n2 int) (res run.Result) {
 	r := c.Rng
-	n1, n2 := largeSizes(r, c.Case)
 	res.Nontrivial = true
 	res.Sig = fmt.Sprintf("%d+%d/v%d/sh%d", n1, n2, 1+c.Case%2, c.Case%4)
 	for k, n := range []int{n1, n2} {
